@@ -50,6 +50,20 @@ def pureOp (op : String) (args : List String) (impl : String) : Option Verdict :
     let npos := (rs.filter (·.isPositive)).length
     pure { model := m, viol := if impl = s then none else some "aggregate",
            tags := [if rs.isEmpty then "empty" else if npos = rs.length then "allpos" else if npos = 0 then "allneg" else "mixed"] }
+  | "aggq", [qs, l] => do
+    -- is_positive() asked while the aggregate is being filled: each answer is that of the members appended so far
+    let rs ← parseReplies l
+    let flags := qs.toList
+    if flags.length ≠ rs.length + 1 then none else
+    let answers := String.ofList ((List.range (rs.length + 1)).map fun i =>
+      if flags.getD i '0' = '1' then (if (Replies.appendAll (rs.take i)).isPositive then '1' else '0') else '-')
+    let a := Replies.appendAll rs
+    let m := s!"{answers} {b01 a.isPositive}{b01 a.isPositive} {hexOfBytes a.status} {hexOfBytes a.status}"
+    let sAnswers := String.ofList ((List.range (rs.length + 1)).map fun i =>
+      if flags.getD i '0' = '1' then (if Spec.aggPositive (rs.take i) then '1' else '0') else '-')
+    let s := s!"{sAnswers} {b01 (Spec.aggPositive rs)}{b01 (Spec.aggPositive rs)} {hexOfBytes (Spec.aggStatus rs)} {hexOfBytes (Spec.aggStatus rs)}"
+    pure { model := m, viol := if impl = s then none else some "aggregate-queried-while-filled",
+           tags := [if flags.head? = some '1' then "asked-empty" else "asked-later"] }
   | "size", [c, h] => do
     let c ← c.toNat?; let t ← bytesOfHex h
     let r : Reply := ⟨c, t⟩
@@ -164,6 +178,24 @@ def pureOp (op : String) (args : List String) (impl : String) : Option Verdict :
     let m := hexOfBytes (Ascii.download cs false [])
     pure { model := m, viol := if impl = hexOfBytes (Spec.dlSpec cs.flatten) then none else some "ascii-download-bytes",
            tags := [if cs.flatten.contains 13 then "cr" else "nocr"] }
+  | "verbsweep", [_shard, _nshards, _secs] => do
+    -- impl: done:<k>/<n> n:<accepted> acc:<hex>=<name>.<nargs>,...   Every token the implementation accepted is put to the
+    -- model of the parser; it must be one of the documented verbs (in some case variant), as that command, without arguments
+    match impl.splitOn " acc:" with
+    | [head, accs] =>
+      let pairs := if accs = "-" then [] else accs.splitOn ","
+      let judged ← pairs.mapM fun p => match p.splitOn "=" with
+        | [h, _] => do
+          let tok ← bytesOfHex h
+          let want := match Cmd.parseCommand tok with
+            | .ok c args => s!"{c.name}.{args.length}"
+            | .invalid => "invalid"
+          pure s!"{h}={want}"
+        | _ => none
+      let model := head ++ " acc:" ++ (if judged.isEmpty then "-" else ",".intercalate judged)
+      pure { model := model, viol := if model = impl then none else some "undocumented-verb-accepted",
+             tags := [if pairs.isEmpty then "none-accepted" else "some-accepted"] }
+    | _ => none
   | "cmd", [h] => do
     let l ← bytesOfHex h
     let r := Cmd.parseCommand l
